@@ -5,6 +5,7 @@ import (
 	"fmt"
 	"net/url"
 	"os"
+	"path/filepath"
 	"runtime"
 	"strings"
 	"time"
@@ -204,16 +205,40 @@ func (c *Config) readFile() error {
 	return yaml.NewDecoder(f).Decode(c)
 }
 
-func (c *Config) writeFile() error {
-	f, err := os.OpenFile(c.path, os.O_RDWR|os.O_CREATE|os.O_TRUNC, 0644)
+func (c *Config) writeFile() (err error) {
+	// write to a temporary file next to the config and rename it into place, so that
+	// a crash or a failed write (e.g. disk full) never leaves a truncated config behind
+	mode := os.FileMode(0644)
+	if st, statErr := os.Stat(c.path); statErr == nil {
+		mode = st.Mode().Perm()
+	}
+	f, err := os.CreateTemp(filepath.Dir(c.path), filepath.Base(c.path)+".*.tmp")
 	if err != nil {
 		return fmt.Errorf("error opening config file for writing: %w", err)
 	}
-	defer f.Close()
-	defer f.Sync()
+	defer func() {
+		if err != nil {
+			f.Close()
+			os.Remove(f.Name())
+		}
+	}()
+	if err = f.Chmod(mode); err != nil {
+		return fmt.Errorf("error setting config file permission: %w", err)
+	}
 
 	encoder := yaml.NewEncoder(f)
 	encoder.SetIndent(2)
-	defer encoder.Close()
-	return encoder.Encode(c)
+	if err = encoder.Encode(c); err != nil {
+		return err
+	}
+	if err = encoder.Close(); err != nil {
+		return err
+	}
+	if err = f.Sync(); err != nil {
+		return err
+	}
+	if err = f.Close(); err != nil {
+		return err
+	}
+	return os.Rename(f.Name(), c.path)
 }
